@@ -1,6 +1,7 @@
 from __future__ import annotations
 from typing import Any, Optional, List, Tuple, Dict
 from copy import deepcopy, copy
+import types
 import torch
 
 __all__ = ["Packer"]
@@ -100,6 +101,8 @@ class Packer(object):
             self._unique_tensor_shapes = [p.shape for p in params_tensors]
         else:
             self._tensor_shapes = [p.shape for p in params_tensors]
+            # the caller gets a list of its own, not the Packer's cache
+            params_tensors = list(params_tensors)
 
         return params_tensors
 
@@ -228,6 +231,9 @@ class Packer(object):
         if tensor_shapes is None:
             raise RuntimeError("Please execute self.get_param_tensor(%s) first" % str(unique))
         elif len(tensor_shapes) == 0:
+            if isinstance(a, torch.Tensor) and a.numel() != 0:
+                msg = "The number of element does not match. Expected: 0, got: %d" % a.numel()
+                raise RuntimeError(msg)
             return deepcopy(self._obj, copy(self._tensor_memo))
         else:
             assert tensor_numel_tot is not None, "Please report to Github"
@@ -263,10 +269,16 @@ def _extract_tensors(b: Any) -> List[torch.Tensor]:
     elif isinstance(b, dict):
         for elmt in b.values():
             res.extend(_extract_tensors(elmt))
-    elif hasattr(b, "__dict__"):
+    elif hasattr(b, "__dict__") and not _is_atomic(b):
         for elmt in b.__dict__.values():
             res.extend(_extract_tensors(elmt))
     return res
+
+def _is_atomic(b: Any) -> bool:
+    # classes, functions and modules carry a __dict__, but deepcopy hands them
+    # back as they are: they are content, not containers to be refilled
+    return isinstance(b, (type, types.FunctionType, types.BuiltinFunctionType,
+                          types.MethodType, types.ModuleType))
 
 def _put_tensors(b: Any, tensors: List) -> Any:
     # put the tensors recursively in the object, with the same order as
@@ -281,7 +293,7 @@ def _put_tensors(b: Any, tensors: List) -> Any:
     elif isinstance(b, dict):
         for key, elmt in b.items():
             b[key] = _put_tensors(elmt, tensors)
-    elif hasattr(b, "__dict__"):
+    elif hasattr(b, "__dict__") and not _is_atomic(b):
         for key, elmt in b.__dict__.items():
             b.__dict__[key] = _put_tensors(elmt, tensors)
     return b
